@@ -302,5 +302,12 @@ pub fn run(run: &Run) {
         let _ = std::fs::write(&path, &c.bytes);
         (c.labels.clone(), json!({"labels": c.labels, "cfg": c.cfg.name(), "input_file": path, "idx": idx}))
     });
+    if all {
+        if let Some(exe) = crate::lanes::build(run, "asan") {
+            let m = e * 12;
+            crate::sup::run_cases_lane(run, "C14", 0, m, 50, &|idx| { let c = t.case(seed, idx, all); (c.labels.clone(), json!({"labels": c.labels, "cfg": c.cfg.name(), "idx": idx})) }, &crate::lanes::env_for("asan", &exe), "asan");
+            run.add("asan_lane_cases", m);
+        }
+    }
     let _: Option<Value> = None;
 }
